@@ -155,6 +155,27 @@ impl Property for C06 {
             schema_only: false,
         };
         case.pieces = gen_stream(rng, &w);
+        if long && rng.chance(1, 2) {
+            // a long history in which every piece of noise starts a container or a word
+            for p in case.pieces.iter_mut() {
+                if p.kind == Kind::Garbage {
+                    let t: &[u8] = if pol == Policy::Panic && rng.chance(1, 2) { *rng.pick(BROKEN_WORDS) } else { *rng.pick(BROKEN_STARTS) };
+                    let mut g = vec![b'\n'];
+                    g.extend_from_slice(t);
+                    g.push(b'\n');
+                    p.bytes.0 = g;
+                }
+            }
+        }
+        if pol == Policy::Panic && rng.chance(1, 4) {
+            if let Some(p) = case.pieces.iter_mut().find(|p| p.kind == Kind::Garbage) {
+                let t: &[u8] = *rng.pick(BROKEN_WORDS);
+                let mut g = vec![b'\n'];
+                g.extend_from_slice(t);
+                g.push(b'\n');
+                p.bytes.0 = g;
+            }
+        }
         if count_kind(&case.pieces, Kind::Garbage) == 0 && rng.chance(3, 4) {
             // make sure most scenarios have noise somewhere
             let at = rng.below(case.pieces.len() + 1);
